@@ -33,12 +33,12 @@ Inductive obs :=
 | OPanic.
 
 Inductive case :=
-| PCase (id : nat) (prog : list stmt) (probes : list expr) (names : list name)
+| PCase (id : N) (prog : list stmt) (probes : list expr) (names : list name)
         (out : impl_outcome) (trace : list bytes)
         (probe_obs : list (option bytes)) (globals : list bytes)
-| SCase (id : nat) (ops : list aop) (observed : list obs).
+| SCase (id : N) (ops : list aop) (observed : list obs).
 
-Definition c_id (c : case) : nat := match c with PCase id _ _ _ _ _ _ _ => id | SCase id _ _ => id end.
+Definition c_id (c : case) : N := match c with PCase id _ _ _ _ _ _ _ => id | SCase id _ _ => id end.
 
 Fixpoint list_bytes_eqb (a b : list bytes) : bool :=
   match a, b with
@@ -235,7 +235,7 @@ Definition verdict (c : case) : nat :=
   | SCase _ ops os => verdict_ops empty_state ops os
   end.
 
-Definition check_all (cs : list case) : list (nat * nat) :=
+Definition check_all (cs : list case) : list (N * nat) :=
   filter (fun p => negb (Nat.eqb (snd p) 0)) (map (fun c => (c_id c, verdict c)) cs).
 
 (* for debugging a replay *)
